@@ -113,7 +113,7 @@ func (sl *StakeLimiter) checkIndividualPowerLimit(delg *Delegatee, diffPower int
 	return nil
 }
 
-func (sl *StakeLimiter) checkUpdatablePowerLimit(delg *Delegatee, diffPower int64) xerrors.XError {
+func (sl *StakeLimiter) checkUpdatablePowerLimit(delg *Delegatee, diffPower int64, record bool) xerrors.XError {
 	ridx, powObj := sl.findPowerObj(delg.Addr)
 	if powObj == nil {
 		// `delg` is new face
@@ -168,6 +168,16 @@ func (sl *StakeLimiter) checkUpdatablePowerLimit(delg *Delegatee, diffPower int6
 				updatedPower, sl.baseTotalPower, _ratio, sl.updatableLimitRatio))
 	}
 
+	if !record {
+		// only check: the running totals belong to the block being executed.
+		if powObj.Power+diffPower < 0 {
+			return xerrors.From(
+				fmt.Errorf("StakeLimiter error: power(%v) of %v is negative",
+					powObj.Power+diffPower, powObj.Addr))
+		}
+		return nil
+	}
+
 	powObj.Power += diffPower
 
 	if powObj.Power < 0 {
@@ -180,7 +190,18 @@ func (sl *StakeLimiter) checkUpdatablePowerLimit(delg *Delegatee, diffPower int6
 	return nil
 }
 
+// CheckLimit checks the limits and, when they are kept, records the change in the running totals of the current block.
 func (sl *StakeLimiter) CheckLimit(delg *Delegatee, changePower int64) xerrors.XError {
+	return sl.checkLimit(delg, changePower, true)
+}
+
+// CheckLimitOnly checks the limits without recording anything.
+// It is for the mempool check, which must not touch the state of the block being executed.
+func (sl *StakeLimiter) CheckLimitOnly(delg *Delegatee, changePower int64) xerrors.XError {
+	return sl.checkLimit(delg, changePower, false)
+}
+
+func (sl *StakeLimiter) checkLimit(delg *Delegatee, changePower int64, record bool) xerrors.XError {
 	sl.mtx.Lock()
 	defer sl.mtx.Unlock()
 
@@ -191,7 +212,7 @@ func (sl *StakeLimiter) CheckLimit(delg *Delegatee, changePower int64) xerrors.X
 	if xerr := sl.checkIndividualPowerLimit(delg, changePower); xerr != nil {
 		return xerr
 	}
-	if xerr := sl.checkUpdatablePowerLimit(delg, changePower); xerr != nil {
+	if xerr := sl.checkUpdatablePowerLimit(delg, changePower, record); xerr != nil {
 		return xerr
 	}
 	return nil
